@@ -36,6 +36,35 @@ type CaseA struct {
 	// Reuse: what the caller does with each []byte it passed to a parsing entry point
 	// after the call returned ("" = nothing; see common_test.go)
 	Reuse string `json:"reuse,omitempty"`
+	// Bulk: a large run of items written in front of / behind Src (scale cases; see scale_test.go)
+	Bulk *Bulk `json:"bulk,omitempty"`
+}
+
+func (c *CaseA) source() string { return withBulk(c.Src, c.Bulk) }
+
+// genBulkA: the scale dimension of (a): items per body, nesting depth, file size.
+func genBulkA(t *rapid.T) *Bulk {
+	bl := &Bulk{}
+	switch rapid.SampledFrom([]string{"items", "items", "nesting", "file-size"}).Draw(t, "scale-what") {
+	case "items":
+		bl.N = genScaleCount(t, "scale-items", 8193)
+		bl.BlockEvery = genBlockEvery(t)
+		bl.Nest = rapid.SampledFrom([]int{0, 0, 1, 2}).Draw(t, "bulk-nest")
+	case "nesting":
+		bl.N = rapid.IntRange(0, 3).Draw(t, "scale-items-small")
+		bl.Nest = genScaleCount(t, "scale-nesting", 1025)
+	default:
+		// N x Width bytes: 1 KiB .. 4 MiB (the large sizes are rare: each costs about a second)
+		size := rapid.SampledFrom([]int{1 << 10, 4 << 10, 64 << 10, 64 << 10, 256 << 10, 1 << 20, 1 << 20, 4 << 20}).Draw(t, "scale-file-size")
+		bl.N = genScaleCount(t, "scale-items", 4097)
+		bl.Width = size / bl.N
+		if bl.Width < 1 {
+			bl.Width = 1
+		}
+		bl.BlockEvery = genBlockEvery(t)
+	}
+	bl.After = bl.Nest == 0 && rapid.Bool().Draw(t, "bulk-after")
+	return bl
 }
 
 func genSource(t *rapid.T) (string, string, []string) {
@@ -69,6 +98,9 @@ func genSource(t *rapid.T) (string, string, []string) {
 func genA(t *rapid.T) CaseA {
 	src, origin, feat := genSource(t)
 	c := CaseA{Origin: origin, Src: src, Feat: feat}
+	if rapid.IntRange(0, scaleShare-1).Draw(t, "scale") == 0 {
+		c.Bulk = genBulkA(t)
+	}
 	c.Reuse = genReuse(t)
 	if rapid.IntRange(0, 3).Draw(t, "second-file") > 0 || c.Reuse == reuseOther || c.Reuse == reuseNext {
 		c.Src2, _, _ = genSource(t)
@@ -254,11 +286,12 @@ func formatA(st *stateA, k *keeper) *core.Violation {
 func checkA(c CaseA) *core.Violation {
 	k := newKeeper()
 	var states []*stateA
-	for i, text := range []string{c.Src, c.Src2} {
+	full := c.source()
+	for i, text := range []string{full, c.Src2} {
 		if text == "" && len(states) > 0 {
 			continue
 		}
-		st, v := loadA(text, c.Reuse, []string{c.Src2, c.Src}[i], k)
+		st, v := loadA(text, c.Reuse, []string{c.Src2, full}[i], k)
 		if v != nil {
 			return k.finish(v)
 		}
@@ -359,7 +392,8 @@ func srcClass(src string) (valid, heredoc, comment, template bool) {
 
 func classifyA(c CaseA) core.Class {
 	var cl core.Class
-	valid, heredoc, comment, template := srcClass(c.Src)
+	full := c.source()
+	valid, heredoc, comment, template := srcClass(full)
 	cl.Labels = append(cl.Labels, "origin:"+c.Origin)
 	if !valid {
 		cl.Labels = append(cl.Labels, "source:rejected-by-parser(skipped)")
@@ -367,6 +401,15 @@ func classifyA(c CaseA) core.Class {
 		return cl
 	}
 	cl.Labels = append(cl.Labels, "source:valid", reuseLabel(c.Reuse))
+	if bl := c.Bulk; bl != nil {
+		if bl.N >= 63 {
+			cl.Labels = append(cl.Labels, scaleLabel("items-per-body(source)", bl.N))
+		}
+		if bl.Nest >= 63 {
+			cl.Labels = append(cl.Labels, scaleLabel("block-nesting-depth", bl.Nest))
+		}
+		cl.Labels = append(cl.Labels, "scale:file-size:"+sizeBucket(len(full)))
+	}
 	if c.Src2 != "" && c.Src2 != c.Src {
 		cl.Labels = append(cl.Labels, "results:two-different-files-serialised")
 	} else {
